@@ -799,3 +799,153 @@ Proof.
   intros H HD H'. apply accept_fixed_sound in H as [HF [HP _]]. apply accept_fixed_sound in H' as [HF' [HP' _]].
   destruct HD as [HD|HD]; [congruence|]. rewrite HP in HP'. inversion HP'. congruence.
 Qed.
+
+(** * Repaired rule: order independence, adopted state, exact acceptance condition *)
+
+Lemma dedup_length_incl l l' : incl l l' -> (length (dedup l) <= length (dedup l'))%nat.
+Proof.
+  intros H. apply NoDup_incl_length; [apply dedup_NoDup|].
+  intros x Hx. apply (proj2 (dedup_In x l')). apply H. exact (proj1 (dedup_In x l) Hx).
+Qed.
+
+Lemma dedup_length_perm l l' : Permutation l l' -> length (dedup l) = length (dedup l').
+Proof.
+  intros HP. apply Nat.le_antisymm; apply dedup_length_incl; intros x Hx.
+  - eapply Permutation_in; eauto.
+  - eapply Permutation_in; [apply Permutation_sym|]; eauto.
+Qed.
+
+Lemma ff_decide_fixed_perm known i rr ph fh s s' f :
+  Permutation s s' ->
+  ff_decide_fixed known (mkBlock i rr ph fh s) f = ff_decide_fixed known (mkBlock i rr ph fh s') f.
+Proof.
+  intros HP. unfold ff_decide_fixed, check_ff_fixed, check_block_fixed, peers_hash_ok, valid_signers_fixed.
+  cbn [fb_sigs fb_peers_hash fb_frame_hash].
+  rewrite (existsb_perm (verify_panics_fixed known (ff_peers f)) _ _ HP).
+  rewrite (dedup_length_perm _ _ (Permutation_map se_bytes (filter_perm (signer_ok known (ff_peers f)) _ _ HP))).
+  reflexivity.
+Qed.
+
+Lemma core_ff_fixed_accept_state known st b f st' :
+  core_ff_fixed known st b f = (FFOk, st') ->
+  st' = mkCore (HgReset b f) (new_validators f) (ff_peers f) (cs_rest st).
+Proof.
+  unfold core_ff_fixed.
+  destruct (check_ff_fixed_res known b f) as [E|[E|[E|[E|E]]]]; rewrite E; try discriminate.
+  destruct (reset_result_cases f) as [[E1 _]|[E1|E1]]; rewrite E1; intros H; inversion H; reflexivity.
+Qed.
+
+Lemma core_ff_fixed_rest known st b f : cs_rest (snd (core_ff_fixed known st b f)) = cs_rest st.
+Proof.
+  unfold core_ff_fixed. destruct (check_ff_fixed known b f); try reflexivity.
+  destruct (reset_result f); reflexivity.
+Qed.
+
+(* exactly when the repaired rule adopts (on a response on which Block.Verify does not panic) *)
+Lemma ff_decide_fixed_iff known b f :
+  existsb (verify_panics_fixed known (ff_peers f)) (fb_sigs b) = false ->
+  (ff_decide_fixed known b f = FFOk <->
+   fb_peers_hash b = Some (peers_digest (ff_peers f)) /\
+   fb_frame_hash b = ff_hash f /\
+   ff_reset f = 1 /\
+   fs_tc (ff_peers f) < Z.of_nat (length (valid_signers_fixed known (ff_peers f) (fb_sigs b)))).
+Proof.
+  intros HNP. split.
+  - intros H. apply ff_decide_fixed_ok in H as [HC HR]. apply check_ff_fixed_ok in HC as [HB HF].
+    apply check_block_fixed_ok in HB as [HP [_ HV]]. auto.
+  - intros [HP [HF [HR HV]]].
+    unfold ff_decide_fixed, check_ff_fixed, check_block_fixed, peers_hash_ok. rewrite HP, HNP.
+    assert (E0 : zlist_eqb (peers_digest (ff_peers f)) (peers_digest (ff_peers f)) = true)
+      by (apply zlist_eqb_eq; reflexivity).
+    rewrite E0; cbn [negb].
+    destruct (Z.of_nat (length (valid_signers_fixed known (ff_peers f) (fb_sigs b))) <=? fs_tc (ff_peers f)) eqn:E; [lia|].
+    rewrite HF, Z.eqb_refl. unfold reset_result. rewrite HR. reflexivity.
+Qed.
+
+(* an honest response: digests consistent, Reset succeeds, every entry is a well-formed verifying
+   signature of a distinct member of the frame's set *)
+Definition honest_response (b : ffblock) (f : ffframe) : Prop :=
+  fb_peers_hash b = Some (peers_digest (ff_peers f)) /\
+  fb_frame_hash b = ff_hash f /\ ff_reset f = 1 /\
+  NoDup (map se_bytes (fb_sigs b)) /\
+  forall s, In s (fb_sigs b) -> se_short s = false /\ se_verif s = 1 /\ member (ff_peers f) (se_bytes s) = true.
+
+Lemma filter_map_comm {A B} (g : A -> B) (p : B -> bool) l :
+  map g (filter (fun x => p (g x)) l) = filter p (map g l).
+Proof.
+  induction l as [|x r IH]; simpl; [reflexivity|].
+  destruct (p (g x)); simpl; rewrite IH; reflexivity.
+Qed.
+
+(* LIVENESS of the repaired rule, exactly: an honest response is adopted iff more than TrustCount of
+   its signers belong to a set the node already knows *)
+Lemma honest_accept_iff known b f :
+  honest_response b f ->
+  (ff_decide_fixed known b f = FFOk <->
+   fs_tc (ff_peers f) < Z.of_nat (length (filter (in_known known) (map se_bytes (fb_sigs b))))).
+Proof.
+  intros [HP [HF [HR [ND HS]]]].
+  assert (HNP : existsb (verify_panics_fixed known (ff_peers f)) (fb_sigs b) = false).
+  { destruct (existsb (verify_panics_fixed known (ff_peers f)) (fb_sigs b)) eqn:E; [|reflexivity].
+    apply existsb_exists in E as [s [Hs Hp]]. destruct (HS s Hs) as [_ [Hv _]].
+    unfold verify_panics_fixed in Hp. rewrite Hv in Hp. rewrite andb_false_r in Hp. discriminate. }
+  assert (EV : valid_signers_fixed known (ff_peers f) (fb_sigs b) =
+               filter (in_known known) (map se_bytes (fb_sigs b))).
+  { unfold valid_signers_fixed.
+    assert (EF : filter (signer_ok known (ff_peers f)) (fb_sigs b) =
+                 filter (fun s => in_known known (se_bytes s)) (fb_sigs b)).
+    { apply filter_ext_in. intros s Hs. destruct (HS s Hs) as [Hsh [Hv Hm]].
+      unfold signer_ok. rewrite Hsh, Hv, Hm. cbn. rewrite andb_true_r. reflexivity. }
+    rewrite EF, (filter_map_comm se_bytes (in_known known)).
+    apply dedup_id. apply NoDup_filter. exact ND. }
+  rewrite (ff_decide_fixed_iff known b f HNP), EV. tauto.
+Qed.
+
+(* ... in particular it is adopted by a node that knows every signer *)
+Lemma honest_accept_all_known known b f :
+  honest_response b f ->
+  (forall s, In s (fb_sigs b) -> in_known known (se_bytes s) = true) ->
+  fs_tc (ff_peers f) < Z.of_nat (length (fb_sigs b)) ->
+  ff_decide_fixed known b f = FFOk.
+Proof.
+  intros HH HK HL. apply (honest_accept_iff known b f HH).
+  assert (E : filter (in_known known) (map se_bytes (fb_sigs b)) = map se_bytes (fb_sigs b)).
+  { clear HL HH. induction (fb_sigs b) as [|s r IH]; simpl; [reflexivity|].
+    rewrite (HK s (or_introl eq_refl)). f_equal. apply IH. intros x Hx; apply HK; right; auto. }
+  rewrite E, map_length. exact HL.
+Qed.
+
+(* F4 on the repaired rule: the full no-op statement is still false when more than a third of the
+   validators the node knows sign a frame that Reset cannot insert *)
+Lemma reject_noop_fixed_refuted : ~ reject_noop_statement (node_ff_fixed w_known).
+Proof.
+  intros H.
+  assert (E : node_ff_fixed w_known w_ns0 [None; Some w_byz] =
+              (Some FFResetError, mkNode (mkCore (HgBroken w_byz_block w_byz_frame) w_set4 w_set4 0) [8] false))
+    by (vm_compute; reflexivity).
+  specialize (H _ _ _ _ E). assert (N : FFResetError <> FFOk) by discriminate.
+  specialize (H N). discriminate.
+Qed.
+
+Lemma liveness_example :
+  honest_response w_block5 w_frame5 /\
+  ff_decide_fixed [[0; 1; 2; 3]] w_block5 w_frame5 = FFNotEnoughSigs /\
+  ff_decide_fixed [[0; 1; 2; 3; 4]; [0; 1; 2; 3]] w_block5 w_frame5 = FFOk /\
+  cs_validators (snd (core_ff_fixed [[0; 1; 2; 3; 4]] w_core0 w_block5 w_frame5)) = w_set5.
+Proof.
+  split; [|vm_compute; repeat split; reflexivity].
+  unfold honest_response. split; [reflexivity|split; [reflexivity|split; [reflexivity|split]]].
+  - cbn. constructor; [cbn; intros [H|[H|[]]]; discriminate|].
+    constructor; [cbn; intros [H|[]]; discriminate|]. constructor; [cbn; tauto|constructor].
+  - intros s Hs. cbn in Hs. destruct Hs as [<-|[<-|[<-|[]]]]; vm_compute; repeat split; reflexivity.
+Qed.
+
+Lemma distinct_signers_refuted_witness :
+  NoDup (map se_key (fb_sigs w_dup_block)) /\ ff_decide w_dup_block w_frame4 = FFOk /\
+  distinct_valid_signers (ff_peers w_frame4) (fb_sigs w_dup_block) = [1] /\ fs_len (ff_peers w_frame4) = 4.
+Proof.
+  split; [|vm_compute; repeat split].
+  cbn. constructor; [cbn; intros [H|[H|[]]]; discriminate|].
+  constructor; [cbn; intros [H|[]]; discriminate|].
+  constructor; [cbn; tauto|constructor].
+Qed.
